@@ -332,7 +332,7 @@ func genCase() *rapid.Generator[Case] {
 			case "error":
 				m.Data = `{"error":{"code":"` + rapid.SampledFrom([]string{"system.notFound", "custom.x"}).Draw(t, "code") + `","message":"m"}}`
 			case "invalid":
-				m.Data = rapid.SampledFrom([]string{`{"res`, `[]`, `{}`, ` `, `42`, `{"result":}`}).Draw(t, "inv")
+				m.Data = rapid.SampledFrom([]string{`{"res`, `[]`, `{}`, ` `, `42`, `{"result":}`, `{"result":1}{"result":2}`, `{"result":{"n":1}} trailing`, `{"resource":{"rid":"a.b"}}}`, `{"error":{"code":"system.notFound","message":"m"}},`}).Draw(t, "inv")
 			case "empty":
 				m.Data = ""
 			case "pre":
@@ -343,7 +343,7 @@ func genCase() *rapid.Generator[Case] {
 				}
 				deadlines[at+m.N] = true
 			case "preunknown":
-				m.Data = rapid.SampledFrom([]string{`foo:"1"`, `Ping:"x"`, `Timeout:"5"`, `a`, `timeouts:"9"`}).Draw(t, "unk")
+				m.Data = rapid.SampledFrom([]string{`foo:"1"`, `Ping:"x"`, `Timeout:"5"`, `a`, `timeouts:"9"`, `idletimeout:"20"`, `progress:"50" softtimeout:"20"`, `x_timeout:"20"`, `foo:"timeout:" bar:"20"`}).Draw(t, "unk")
 			case "prebad":
 				m.Data = rapid.SampledFrom([]string{`timeout:"x"`, `timeout:"-5"`, `timeout:""`, `timeout:"1.5"`}).Draw(t, "bad")
 			}
